@@ -1,7 +1,7 @@
 (* C07/Property.v — property theorems only. *)
 From Coq Require Import String List Bool ZArith.
-From Verif Require Import Base.Str Base.Py C07.Model C07.Spec C07.Proofs C07.Corr C07.Source.
-From VerifGen Require Import C07Src.
+From Verif Require Import Base.Str Base.Py Base.Py2 C07.Model C07.Spec C07.Proofs C07.Corr C07.Source C07.Source2.
+From VerifGen Require Import C07Src C07Src2 C07Src2l.
 Import ListNotations.
 
 (* C07: for every receiver configuration (entity type, endpoints in every role, signing requirement,
@@ -150,6 +150,77 @@ Theorem c07_nonvacuous :
 Proof. exact (conj accepted_post accepted_redirect). Qed.
 Print Assumptions c07_nonvacuous.
 
+(* ---------- lives (strengthening round 2) ----------
+   the life of a process: several receiver objects, each with the metadata it was built from;
+   requests in any order, successful metadata reloads (Entity.reload_metadata / MetadataStore.reload)
+   and failed ones in between.  Every request of every life satisfies the property with respect to
+   the metadata its receiver holds AT THAT MOMENT. *)
+Theorem c07_life_enforces :
+  forall (key cert esig dsig doc : Type) (cert_of : key -> cert)
+         (esign : key -> body -> esig) (dsign : key -> doc * option string * string -> dsig)
+         (everify : cert -> body -> esig -> bool) (dverify : cert -> doc * option string * string -> dsig -> bool),
+    (forall c b s, everify c b s = true <-> exists k, c = cert_of k /\ s = esign k b) ->
+    (forall c o s, dverify c o s = true <-> exists k, c = cert_of k /\ s = dsign k o) ->
+    forall (st : nat -> mdfun cert) (ops : list (op cert esig dsig doc)),
+      Forall (fun p => spec cert_of esign dsign (fst p) (snd p)) (run_life everify dverify st ops).
+Proof. exact life_sound. Qed.
+Print Assumptions c07_life_enforces.
+
+(* ... where "the metadata at that moment" is: what the receiver was built with, replaced by the last
+   successful reload of THAT receiver; a reload of another receiver, a failed reload and the requests
+   themselves leave no trace *)
+Theorem c07_life_current_md :
+  forall (cert esig dsig doc : Type)
+         (everify : cert -> body -> esig -> bool) (dverify : cert -> doc * option string * string -> dsig -> bool)
+         (st : nat -> mdfun cert) (pre : list (op cert esig dsig doc)) (r : nat) (x : input cert esig dsig doc),
+    run_life everify dverify st (pre ++ [Req r x])
+    = (run_life everify dverify st pre
+       ++ [(with_md x (state_after st pre r), parse_request everify dverify (with_md x (state_after st pre r)))])%list.
+Proof. exact life_current_md. Qed.
+Print Assumptions c07_life_current_md.
+
+Theorem c07_state_after_reload :
+  forall (cert esig dsig doc : Type) (st : nat -> mdfun cert) (pre : list (op cert esig dsig doc)) r m r',
+    state_after st (pre ++ [Reload r m]) r' = if Nat.eqb r' r then m else state_after st pre r'.
+Proof. exact state_after_reload. Qed.
+Print Assumptions c07_state_after_reload.
+
+Theorem c07_state_after_no_trace :
+  forall (cert esig dsig doc : Type) (st : nat -> mdfun cert) (pre : list (op cert esig dsig doc)) o,
+    (forall r m, o <> Reload r m) -> state_after st (pre ++ [o]) = state_after st pre.
+Proof. exact state_after_no_trace. Qed.
+Print Assumptions c07_state_after_no_trace.
+
+(* key roll-over: under a signing requirement a Redirect request whose detached signature was made with
+   a key that the receiver's CURRENT metadata does not list for the sender is rejected, whatever this or
+   any other receiver of the process accepted before *)
+Theorem c07_retired_key_rejected :
+  forall (key cert esig dsig doc : Type) (cert_of : key -> cert)
+         (esign : key -> body -> esig) (dsign : key -> doc * option string * string -> dsig)
+         (everify : cert -> body -> esig -> bool) (dverify : cert -> doc * option string * string -> dsig -> bool),
+    (forall c b s, everify c b s = true <-> exists k, c = cert_of k /\ s = esign k b) ->
+    (forall c o s, dverify c o s = true <-> exists k, c = cert_of k /\ s = dsign k o) ->
+    forall (st : nat -> mdfun cert) (pre : list (op cert esig dsig doc)) r (x : input cert esig dsig doc),
+      requires_signed (cfg x) -> binding x = Some BINDING_HTTP_REDIRECT ->
+      (forall k sa, sigalg x = Some sa -> signature x = Some (dsign k (origdoc x, relay_state x, sa)) ->
+         ~ In (cert_of k) (state_after st pre r (sender (msg x)))) ->
+      parse_request everify dverify (with_md x (state_after st pre r)) <> Accept.
+Proof. exact retired_key_rejected. Qed.
+Print Assumptions c07_retired_key_rejected.
+
+(* the correspondence evaluates lives with Model.run_life on the term-algebra instance; a life whose
+   observed verdicts pass the boolean spec satisfies the stated spec step by step *)
+Theorem c07_instance_life :
+  forall init ops, Forall (fun p => spec icert_of iesign idsign (fst p) (snd p)) (ilife init ops).
+Proof. exact instance_life_sound. Qed.
+Print Assumptions c07_instance_life.
+
+Theorem c07_life_spec_reflect :
+  forall t, tholds t = true ->
+    Forall (fun c => match snd c with Some v => spec icert_of iesign idsign (fst c) v | None => True end) (cases_of t).
+Proof. exact tholds_sound. Qed.
+Print Assumptions c07_life_spec_reflect.
+
 (* tie to the source TEXT: Request._verify as translated from /repo's current source on this run
    (coq/gen/C07Src.v, harness/py2coq.py) computes the model's version and Destination tests, for every
    version string, Destination and receiver address list *)
@@ -160,3 +231,174 @@ Theorem c07_source_request_verify : forall iok b addrs,
     else iok.
 Proof. exact src_request_verify_is_model. Qed.
 Print Assumptions c07_source_request_verify.
+
+(* ---------- tie to the source TEXT, translator v2 (harness/py2coq2.py, Base/Py2.v) ----------
+   coq/gen/C07Src2.v and coq/gen/C07Src2l.v are re-translated from /repo's current source on every run;
+   external calls are universally quantified functions constrained by the hypotheses shown. *)
+
+(* Request.sender = Model.issuer_id (AttributeError when there is no Issuer) *)
+Theorem c07_source2_sender : forall (b : body) (sg : pyval) (addrs : list string) (sl : Z),
+  (forall s, issuer b = Some s -> end_ascii (strip s) = true) ->
+  src2_sender (enc_request_obj (enc_message b sg) addrs sl)
+  = match issuer_id b with Some s => PStr s | None => PExc "AttributeError" end.
+Proof. exact src2_sender_is_model. Qed.
+Print Assumptions c07_source2_sender.
+
+(* Request._do_redirect_sig_check, whatever verify_redirect_signature answers per certificate: the first
+   certificate that verifies decides, certificates that raise ValueError are skipped, any other exception propagates *)
+Theorem c07_source2_redirect_sig_check_loop :
+  forall (cert : Type) (enc_cert : cert -> pyval), (forall ct, is_bad (enc_cert ct) = false) ->
+  forall (md_certs_py : pyval -> pyval) (verify_sig : pyval -> pyval -> pyval) (vr : cert -> vres)
+         (b : body) (sg : pyval) (addrs : list string) (sl : Z) (msg : pyval) (certs : list cert),
+  (forall s, issuer b = Some s -> end_ascii (strip s) = true) ->
+  is_bad msg = false ->
+  (forall s, issuer_id b = Some s -> md_certs_py (PStr s) = PList (map (enc_pair cert enc_cert) certs)) ->
+  (forall ct, verify_sig msg (enc_cert ct) = enc_vres (vr ct)) ->
+  src2_redirect_sig_check md_certs_py verify_sig (enc_request_obj (enc_message b sg) addrs sl) msg
+  = match issuer_id b with Some _ => sig_loop cert vr certs | None => PExc "AttributeError" end.
+Proof. exact src2_redirect_sig_check_loop. Qed.
+Print Assumptions c07_source2_redirect_sig_check_loop.
+
+(* ... and with the ideal verifier of the model: Request._do_redirect_sig_check = Model.redirect_sig_ok *)
+Theorem c07_source2_redirect_sig_check :
+  forall (cert dsig doc : Type) (dverify : cert -> doc * option string * string -> dsig -> bool)
+         (enc_cert : cert -> pyval), (forall ct, is_bad (enc_cert ct) = false) ->
+  forall (md_certs_py : pyval -> pyval) (verify_sig : pyval -> pyval -> pyval) (c : config cert)
+         (b : body) (sg : pyval) (addrs : list string) (sl : Z) (msg : pyval) (od : doc) (rs : option string)
+         (sa : string) (g : dsig),
+  (forall s, issuer b = Some s -> end_ascii (strip s) = true) ->
+  is_bad msg = false ->
+  (forall s, issuer_id b = Some s -> md_certs_py (PStr s) = PList (map (enc_pair cert enc_cert) (md_certs c (Some s)))) ->
+  (forall ct, verify_sig msg (enc_cert ct) = PBool (supported_alg sa && dverify ct (od, rs, sa) g)) ->
+  src2_redirect_sig_check md_certs_py verify_sig (enc_request_obj (enc_message b sg) addrs sl) msg
+  = match issuer b with
+    | Some _ => PBool (redirect_sig_ok dverify c b od rs sa g)
+    | None => PExc "AttributeError"
+    end.
+Proof. exact src2_redirect_sig_check_is_model. Qed.
+Print Assumptions c07_source2_redirect_sig_check.
+
+(* SecurityContext.correctly_signed_message = the enveloped-signature step of Model.parse_request *)
+Theorem c07_source2_correctly_signed_message :
+  forall (cert esig : Type) (everify : cert -> body -> esig -> bool) (parse : pyval -> pyval -> pyval)
+         (check_sig : pyval -> pyval -> pyval -> pyval -> pyval) (c : config cert) (b : body)
+         (e : option (envsig cert esig)) (kind_ok : bool) (must : option bool) (ovc : bool)
+         (xml mt : string) (self origdoc : pyval),
+  let M := enc_message b (enc_sig cert esig e) in
+  is_bad self = false -> is_bad origdoc = false ->
+  (forall a, parse (PStr a) (PStr xml) = (if kind_ok then M else PNone)) ->
+  (forall e', e = Some e' ->
+     check_sig (PStr xml) M (enc_obool must) (PBool ovc)
+     = (if check_signature everify c b e' ovc then M else PExc "SignatureError")) ->
+  src2_correctly_signed_message parse check_sig self (PStr xml) (PStr mt) (enc_obool must) origdoc (PBool ovc)
+  = (if negb kind_ok then PExc "TypeError"
+     else if match e with
+             | Some e' => check_signature everify c b e' ovc
+             | None => negb (truthy must)
+             end
+          then M else PExc "SignatureError").
+Proof. exact src2_correctly_signed_message_is_model. Qed.
+Print Assumptions c07_source2_correctly_signed_message.
+
+(* Request._loads = loads_verdict, the signature and validity steps of Model.parse_request ... *)
+Theorem c07_source2_loads :
+  forall (cert esig dsig doc : Type) (everify : cert -> body -> esig -> bool)
+         (dverify : cert -> doc * option string * string -> dsig -> bool) (enc_doc : doc -> pyval) (enc_dsig : dsig -> pyval),
+  (forall d, is_bad (enc_doc d) = false) ->
+  (forall g, is_bad (enc_dsig g) = false /\ enc_dsig g <> PNone) ->
+  forall (signature_check : pyval -> pyval -> pyval -> pyval -> pyval) (redirect_sig_check : pyval -> pyval -> pyval)
+         (valid_instance_py : pyval -> pyval) (c : config cert) (b : body) (kind_ok : bool) (e : option (envsig cert esig))
+         (bnd : option string) (od : doc) (must : option bool) (ovc : bool) (rs sa : option string) (sg : option dsig)
+         (xml : string) (addrs : list string) (sl : Z) (sgv : pyval) (n1 : string),
+  let M := enc_message b sgv in
+  all_ascii xml = true -> is_bad sgv = false ->
+  signature_check (PStr xml) (enc_doc od) (sign_post_py must bnd) (PBool ovc)
+  = (if kind_ok && match e with
+                   | Some e' => check_signature everify c b e' ovc
+                   | None => negb (py_truthy (sign_post_py must bnd))
+                   end
+     then M else PExc n1) ->
+  (forall s' a g, sa = Some a -> sg = Some g ->
+     redirect_sig_check s' (saml_msg_dict dsig doc enc_doc enc_dsig od rs a g)
+     = match issuer b with
+       | Some _ => PBool (redirect_sig_ok dverify c b od rs a g)
+       | None => PExc "AttributeError"
+       end) ->
+  valid_instance_py M = (if valid_instance b then PNone else PExc "NotValid") ->
+  src2_loads signature_check redirect_sig_check valid_instance_py (enc_request_obj PNone addrs sl)
+    (PStr xml) (enc_ostr bnd) (enc_doc od) (enc_obool must) (PBool ovc) (enc_ostr rs) (enc_ostr sa)
+    (match sg with Some g => enc_dsig g | None => PNone end)
+  = match loads_verdict cert esig dsig doc everify dverify c b kind_ok e bnd od (truthy must) ovc rs sa sg with
+    | Accept => loaded xml M addrs sl
+    | RejInvalid => PExc "NotValid"
+    | _ => PExc "IncorrectlySigned"
+    end.
+Proof. exact src2_loads_is_model. Qed.
+Print Assumptions c07_source2_loads.
+
+(* ... where loads_verdict IS the part of the model between unravel and the version / Destination / IssueInstant tests *)
+Theorem c07_source2_loads_split :
+  forall (cert esig dsig doc : Type) (everify : cert -> body -> esig -> bool)
+         (dverify : cert -> doc * option string * string -> dsig -> bool) (x : input cert esig dsig doc),
+  parse_request everify dverify x =
+  (let c := cfg x in
+   let kind_ok := kind_eqb (b_kind (msg x)) (expected x) in
+   match unravel (binding x) (enc x) (kind_ok && has_soap_parser (expected x)) with
+   | UBadBinding => RejBinding
+   | UFail => RejUnravel
+   | UText => RejSig
+   | UMsg =>
+       let ovc := truthy (only_valid_cert c) in
+       let must := truthy (want_signed c) || ovc in
+       let pd := passes_detached (expected x) in
+       match loads_verdict cert esig dsig doc everify dverify c (msg x) kind_ok (env x) (binding x) (origdoc x) must ovc
+               (if pd then relay_state x else None) (if pd then sigalg x else None) (if pd then signature x else None) with
+       | Accept =>
+           if negb (String.eqb (version (msg x)) "2.0") then RejVersion
+           else if negb (dest_ok (receiver_addrs c (service_of (expected x)) (binding x)) (msg x)) then RejDest
+           else if negb (issue_instant_ok c (now x) (msg x)) then RejStale
+           else Accept
+       | v => v
+       end
+   end).
+Proof. exact parse_request_split. Qed.
+Print Assumptions c07_source2_loads_split.
+
+(* Entity._parse_request: Request.loads is handed exactly Model.receiver_addrs, Model.slack and the model's must /
+   only_valid_cert; an exception of unravel / loads propagates; a request whose verify() is false is not returned *)
+Theorem c07_source2_parse_request :
+  forall (cert : Type) (endpoint_py : pyval -> pyval -> pyval -> pyval) (cfg_getattr : pyval -> pyval -> pyval)
+         (unravel_py mk_request : pyval -> pyval -> pyval -> pyval) (loads_py : pyval -> list (string * pyval) -> pyval)
+         (verify_py : pyval -> pyval) (c : config cert) (svc mt : string) (bnd : option string) (enc rs sa sg : pyval)
+         (u : string + string),
+  is_bad enc = false -> is_bad rs = false -> is_bad sa = false -> is_bad sg = false ->
+  (forall typ, endpoint_py (PStr svc) (enc_ostr bnd) (PStr typ) = PList (map PStr (endpoint (eps c typ svc) bnd))) ->
+  cfg_getattr (PStr "want_authn_requests_signed") (PStr "idp") = enc_obool (want_signed c) ->
+  cfg_getattr (PStr "want_authn_requests_only_with_valid_cert") (PStr "idp") = enc_obool (only_valid_cert c) ->
+  unravel_py enc (enc_ostr bnd) (PStr mt) = match u with inl n => PExc n | inr xml => PStr xml end ->
+  (forall a s k, is_bad (mk_request a s k) = false) ->
+  (forall r kw, loads_py r kw <> PErr) ->
+  (forall r, is_bad (verify_py r) = false) ->
+  src2_parse_request endpoint_py cfg_getattr unravel_py mk_request loads_py verify_py
+    (enc_entity cert c) enc (enc_cls mt) (PStr svc) (enc_ostr bnd) rs sa sg
+  = match u with
+    | inl n => PExc n
+    | inr xml =>
+        let L := loads_py (mk_request (PList (map PStr (receiver_addrs c svc bnd))) (PInt (slack c)) (enc_cls mt))
+                   [("xmlstr", PStr xml); ("binding", enc_ostr bnd); ("must", must_py cert c);
+                    ("only_valid_cert", ovc_py cert c); ("origdoc", enc); ("relay_state", rs); ("sigalg", sa);
+                    ("signature", sg)] in
+        match L with
+        | PExc n => PExc n
+        | _ => if py_truthy L then (if py_truthy (verify_py L) then L else PNone) else PNone
+        end
+    end.
+Proof. exact src2_parse_request_is_model. Qed.
+Print Assumptions c07_source2_parse_request.
+
+(* the must= / only_valid_cert= values handed over are true exactly when the model's are *)
+Theorem c07_source2_parse_request_must : forall (cert : Type) (c : config cert),
+  py_truthy (must_py cert c) = truthy (want_signed c) || truthy (only_valid_cert c)
+  /\ py_truthy (ovc_py cert c) = truthy (only_valid_cert c).
+Proof. exact (fun cert c => conj (truthy_must_py cert c) (truthy_ovc_py cert c)). Qed.
+Print Assumptions c07_source2_parse_request_must.
